@@ -2,6 +2,7 @@ package main
 
 import (
 	"fmt"
+	"go/constant"
 	"go/token"
 	"go/types"
 	"sort"
@@ -539,6 +540,23 @@ func failConditions(w *World, f *ssa.Function) []failCond {
 					op = token.LEQ
 				}
 			}
+			// an unsigned value is `<= 0` exactly when it is `== 0` (and `< 1`): one spelling
+			isUns := func(v ssa.Value) bool {
+				b, ok := v.Type().Underlying().(*types.Basic)
+				return ok && b.Info()&types.IsUnsigned != 0
+			}
+			if isUns(x) || isUns(y) {
+				kx, xc := constInt(x)
+				ky, yc := constInt(y)
+				switch {
+				case op == token.EQL && yc && ky == 0, op == token.LSS && yc && ky == 1:
+					op = token.LEQ
+					y = zeroLike(y)
+				case op == token.EQL && xc && kx == 0:
+					op = token.LEQ
+					x, y = y, zeroLike(x)
+				}
+			}
 			fc.L, fc.Op, fc.R, fc.X, fc.Y = ex.expr(x), op.String(), ex.expr(y), x, y
 			if (op == token.EQL || op == token.NEQ) && fc.L > fc.R {
 				fc.L, fc.R, fc.X, fc.Y = fc.R, fc.L, fc.Y, fc.X
@@ -765,4 +783,9 @@ func getterPath(f *ssa.Function) []string {
 	}
 	res = path
 	return res
+}
+
+// zeroLike: the constant 0 of v's type.
+func zeroLike(v ssa.Value) ssa.Value {
+	return ssa.NewConst(constant.MakeInt64(0), v.Type())
 }
